@@ -74,6 +74,9 @@ def plan(tier, seed):
         jobs.append({"k": "rand", "i": i, "seed": seed})
     jobs.append({"k": "nested", "seed": seed})
     jobs.append({"k": "huge", "seed": seed})
+    # the sampled jobs run first: when a time budget ends a run early, what is cut is the tail of the exhaustive enumeration
+    # (whose shorter sequences the quick tier covers completely), not the only part that draws long blocks and extreme numbers
+    jobs.sort(key=lambda j: j["k"] == "enum")
     return jobs
 
 
